@@ -249,6 +249,32 @@ Section C07Evidence.
     exact (rendblock_is_a_run_of_attests B S V D H T W E kind_of fees_present expected_calldata expected_deploy D_eqb H_eqb
              tx_hash tx_data valset_at compass_present apply_effect on_error_proof keqb hash enc snapshot_of).
   Qed.
+  (** 15. The second clause on the level of the reports: once validators holding 2/3 of a well-formed
+      current snapshot stand behind one report that is NOT a transaction proof with a successful
+      receipt (a failed receipt, no receipt, an error proof, another proof type), attestRouter commits
+      no success follow-up for that message, whoever reported what first (or hash / serialisation collide). *)
+  Theorem agreed_failure_report_blocks_success : forall w n (rops : list (@rop B S T W E K)) id env ord vals p,
+    (forall gs, Permutation.Permutation (ord gs) gs) ->
+    let s := rrun w n rops in
+    let sn := snapshot_of (world _ _ _ _ _ _ (abs s)) in
+    0 < sn_total sn /\ sn_total sn = Base.Num.zsum (map snd (sn_vals sn)) /\ Forall (fun p => 0 <= snd p) (sn_vals sn) ->
+    NoDup vals -> (forall u, In u vals -> In (u, p) (get_reports T id (evid s))) ->
+    2 * sn_total sn <= 3 * power sn vals ->
+    (forall t r, p = PTx t (Some r) -> r_status r <> receipt_status_successful) ->
+    (exists t d t' d' : Z, (t, d) <> (t', d') /\ hash t d = hash t' d') \/
+    (exists a b : payload T, a <> b /\ enc a = enc b) \/
+    effects _ _ _ _ _ _ (abs (rrun w n (rops ++ [RAttest id env ord]))) = effects _ _ _ _ _ _ (abs s).
+  Proof.
+    intros w n rops id env ord vals p Ho s sn Hsn Hnd Hrep Hq Hfail.
+    unfold AttestEvidence.rrun. rewrite (rrun_from_snoc B S V D H T W E kind_of fees_present expected_calldata expected_deploy
+      D_eqb H_eqb tx_hash tx_data valset_at compass_present apply_effect on_error_proof keqb hash enc snapshot_of).
+    apply (AttestEvidenceProofs.agreed_failure_report_blocks_success B S V D H T W E kind_of fees_present expected_calldata
+             expected_deploy D_eqb H_eqb tx_hash tx_data valset_at compass_present apply_effect on_error_proof keqb hash enc
+             snapshot_of H_eqb_refl T_eq_dec keqb_spec _ id env ord vals p
+             (eq_refl : Gen.C07.bth_covers_full_tx = true) (eq_refl : Gen.C07.bth_covers_full_receipt = true)); try assumption.
+    apply (rrun_inv B S V D H T W E kind_of fees_present expected_calldata expected_deploy D_eqb H_eqb tx_hash tx_data valset_at
+             compass_present apply_effect on_error_proof keqb hash enc snapshot_of H_eqb_refl). apply rinv_init.
+  Qed.
 End C07Evidence.
 
 (** 13. T — the seam as extracted: what the bytes the reports are grouped by cover (the WHOLE
@@ -327,5 +353,6 @@ Print Assumptions success_effects_only_if_two_thirds_reported_success.
 Print Assumptions history_of_reports_is_a_history.
 Print Assumptions stored_report_is_the_validators_latest.
 Print Assumptions endblock_over_reports_is_a_run_of_attests.
+Print Assumptions agreed_failure_report_blocks_success.
 Print Assumptions evidence_seam_as_modelled.
 Print Assumptions two_thirds_clause_refuted_when_status_is_not_hashed.
